@@ -177,6 +177,10 @@ def apply(items, muts, rng):
         numbers = {"1..n": list(range(1, nmodels + 1)), "9..": list(range(9, 9 + nmodels)),
                    "2,10": [2, 10, 11, 12][:nmodels], "descending": list(range(nmodels, 0, -1))}[scheme]
         info["model_numbers"] = numbers
+        # how a model is closed: ENDMDL (the format's way), or nothing at all (ENDMDL lines stripped from an ensemble,
+        # files written by some trajectory tools: the next MODEL record is the only boundary)
+        closing = rng.choice(["ENDMDL", "ENDMDL", "none"])
+        info["model_closing"] = closing
         for m in range(nmodels):
             out.append("MODEL     %4d" % numbers[m])
             for ln in body:
@@ -184,7 +188,8 @@ def apply(items, muts, rng):
                     a = pdbfmt.parse_atom_line(ln)
                     ln = ln[:30] + "%8.3f%8.3f%8.3f" % (a["x"] + 1.5 * m, a["y"] - 0.5 * m, a["z"] + 0.25 * m) + ln[54:]
                 out.append(ln)
-            out.append("ENDMDL")
+            if closing == "ENDMDL" or "endmdl_only" in muts:
+                out.append("ENDMDL")
         out.append("END")
         if "endmdl_only" in muts:
             out = [ln for ln in out if not ln.startswith("MODEL")]
